@@ -46,20 +46,21 @@ def check_canonical(w, line, what):
     cs = list(lift_str(line).cs)
     w.check(len(cs) >= 11 and cs[-1] == 10, f"{what}: does not end with exactly one newline")
     body = cs[:-1]
-    ok_shape = True
     pos = 0
     for i in range(5):
-        if pos < len(body) and isinstance(body[pos], Render) and pos + 1 < len(body) \
-                and body[pos + 1] == 59:
-            pos += 2
+        if pos < len(body) and isinstance(body[pos], Render):
+            pos += 1  # canonical by construction: the rendering of an integer
         else:
-            ok_shape = False
-            break
-    if not ok_shape:
-        # fall back to explicit characters
-        s = strs.expand(w.p, SStr(body))
-        body = list(s.cs)
-        w.cut(f"{what}: integer fields are not lazy renderings (shape check not applicable)")
+            start = pos
+            while pos < len(body) and isinstance(body[pos], int) and body[pos] != 59:
+                pos += 1
+            text = "".join(chr(c) for c in body[start:pos])
+            if pos < len(body) and not isinstance(body[pos], int):
+                w.cut(f"{what}: integer field with symbolic characters (shape check n/a)")
+            w.check(re.fullmatch(r"-?(0|[1-9][0-9]*)", text) is not None and text != "-0",
+                    f"{what}: integer field is not a canonical decimal")
+        w.check(pos < len(body) and body[pos] == 59, f"{what}: missing field separator")
+        pos += 1
     payload = body[pos:]
     for c in payload:
         if isinstance(c, Render):
@@ -389,12 +390,16 @@ def gen_node(w, tag, nid, version, shape):
                 ns.values[k] = wire_payload(w, f"{tag}.c{i}.des2", 1, 1)
             d["new_state"][cid] = ns
     for q in range(shape.get("queue", 0) if sleeping else 0):
-        # a withheld canonical line addressed to this node (not a stream command)
-        c_ = w.fresh_int(f"{tag}.q{q}.child", 0, 255)
-        t_ = w.fresh_int(f"{tag}.q{q}.type", 1, 3)
-        st = w.fresh_int(f"{tag}.q{q}.sub", 0, 40)
-        pl = wire_payload(w, f"{tag}.q{q}.payload", 1, 1)
-        d["queue"].append(structured_line(w, [nid, c_, t_, 0, st], pl))
+        # a withheld command addressed to this node, as the gateway parks them: the reply to a
+        # value request (a set with a free-text value type) first, then a reboot request
+        if q == 0:
+            c_ = w.fresh_int(f"{tag}.q{q}.child", 0, 254)
+            st = w.fresh_int(f"{tag}.q{q}.sub")
+            w.assume_fast(one_of(w, st, ok_types))
+            pl = wire_payload(w, f"{tag}.q{q}.payload", 1, 1)
+            d["queue"].append(structured_line(w, [nid, c_, 1, 0, st], pl))
+        else:
+            d["queue"].append(structured_line(w, [nid, 255, 3, 0, 13], ""))
     return s
 
 
@@ -625,3 +630,51 @@ class AsyncRecorder:
         from symex.env import Done
         self.sink.append(args)
         return Done(None)
+
+
+def as_int(x):
+    """A byte / code-point atom as an engine value."""
+    if isinstance(x, int):
+        return x
+    if type(x).__name__ in ("SInt",):
+        return x
+    return SInt(x)
+
+
+def line_fields(w, line):
+    """Syntactic split of a structured line (five integer fields that are lazy renderings or
+    concrete decimals, then the payload, then LF): ([int values], payload) or None."""
+    if not w.symbolic or isinstance(line, str):
+        m = re.fullmatch(r"(-?[0-9]+);(-?[0-9]+);(-?[0-9]+);(-?[0-9]+);(-?[0-9]+);([^;\n]*)\n",
+                         line)
+        if m is None:
+            return None
+        return [int(m.group(i)) for i in range(1, 6)], m.group(6)
+    cs = list(lift_str(line).cs)
+    if not cs or cs[-1] != 10:
+        return None
+    body, pos, ints = cs[:-1], 0, []
+    for _ in range(5):
+        if pos < len(body) and isinstance(body[pos], Render):
+            ints.append(SInt(body[pos].n) if not isinstance(body[pos].n, int) else body[pos].n)
+            pos += 1
+        else:
+            start = pos
+            while pos < len(body) and isinstance(body[pos], int) and body[pos] != 59:
+                pos += 1
+            text = "".join(chr(c) for c in body[start:pos])
+            if re.fullmatch(r"-?[0-9]+", text) is None:
+                return None
+            ints.append(int(text))
+        if pos >= len(body) or body[pos] != 59:
+            return None
+        pos += 1
+    return ints, SStr(body[pos:])
+
+
+def line_eq(w, a, b):
+    """Equality of two emitted lines, field by field when both are structured."""
+    fa, fb = line_fields(w, a), line_fields(w, b)
+    if fa is None or fb is None:
+        return w.eq(a, b)
+    return w.and_(*[w.eq(x, y) for x, y in zip(fa[0], fb[0])], w.eq(fa[1], fb[1]))
